@@ -254,6 +254,8 @@ func c04E2E(res *lib.Result, tier string, root *lib.Rng) error {
 		// files whose names need percent-encoding in a URI (a blank, a literal '%', a non-ASCII character): the URI of an
 		// answer must DENOTE the file ("a%41 b.lua" sent raw would denote "aA b.lua")
 		src += "print(gpct, gcjk)\n"
+		// a key written both as a name and as a string literal
+		src += "local cfgq = { inner = 1, [\"port\"] = 80 }\nprint(cfgq.inner, cfgq[\"inner\"], cfgq.port, cfgq['port'])\n"
 		// diagnostics whose range is composed from two operand locations (always present, whatever the generator drew)
 		src += "local af1, af2 = gshared_counter and false, gshared_counter or true\nif af1 == af1 then print(af2) elseif af1 == af1 then print(1) end\nlocal dk = { k1 = 1, k1 = 2, [1] = 1, [1] = 2 }\nprint(dk)\n"
 		files := map[string]string{"main.lua": src, "defs.lua": defs,
@@ -406,6 +408,21 @@ func c04E2E(res *lib.Result, tier string, root *lib.Rng) error {
 						check(fmt.Sprintf("reference of %s at %d:%d", p.name, p.line, p.col), l.Range)
 						if t, ok := textAt(l.Range); ok && p.name != "self" && !okText["self"] && !okRef[t] && t != "self" {
 							res.AddViolation("impl-vs-spec", fmt.Sprintf("reference of %s at %d:%d: the range %s selects %q, not the identifier", p.name, p.line, p.col, locOfRange(l.Range), t), src, false)
+						}
+					}
+				}
+			}
+			// rename: every edit replaces exactly an occurrence spelled like the identifier (a key written as a string
+			// literal, t["k"], is listed by references with its quotes and must not be rewritten)
+			if p.name != "self" {
+				if ch, err := sess.Rename("main.lua", p.line, p.col, "zzRenamed"); err == nil {
+					for uri, es := range ch {
+						f := sess.Rel(uri)
+						for _, e := range es {
+							checkIn(f, fmt.Sprintf("rename edit for %s at %d:%d", p.name, p.line, p.col), e.Range)
+							if t, ok := textIn(f, e.Range); ok && t != p.name {
+								res.AddViolation("impl-vs-spec", fmt.Sprintf("rename of %s at %d:%d: the edit %s of %s replaces %q, not the identifier", p.name, p.line, p.col, locOfRange(e.Range), f, t), src, false)
+							}
 						}
 					}
 				}
